@@ -51,7 +51,8 @@ PLANNED = ["fused and auto mode of tensordotF with an empty free group on either
 RULE = ("random fermionic arrays over all symmetries (static/generic classes), even and odd total charge with "
         "labels, sparse, pending lazy signs; every permutation for transpose; tensordot over random axes in modes "
         "auto/fused/blockwise; trace, matmul, single-array einsum. Compared with the Lean model and an independent "
-        "dense graded-tensor calculation. non-trivial: some stored sector has >= 2 odd legs")
+        "dense graded-tensor calculation. non-trivial: some stored sector has >= 2 odd legs"
+        '; operands carrying several sorted labels with nested conjugate pairs; scalar return path; negative axes')
 ANCHORS = {"fermionic_core.py": ["transpose", "phase_flip", "phase_transpose", "tensordot_fermionic",
                                  "resolve_combined_oddpos", "einsum", "trace", "__matmul__"],
            "symmetries.py": ["calc_phase_permutation"]}
